@@ -264,6 +264,8 @@ func isNullOut(o wire.OutPoint) bool {
 type scen struct {
 	hOk, hFail int32
 	inOk       int // is the candidate on the active chain at the end when it is valid
+	skipPow    int // the delivery does not compare the hash with the target
+	store      int // the delivery stores blocks (0 for a template check)
 }
 
 // describe renders the fact tokens "P C H B S tx…" for candidate `blk` on top of path `p`.
@@ -308,7 +310,7 @@ func describe(p *path, b *builder, blk *wire.MsgBlock, bip34HashOk bool, s scen)
 		commit = commitStatus(txs)
 	}
 	fmt.Fprintf(&sb, " %d,%d,%d,%d,%d,%d", blk.SerializeSizeStripped(), blk.SerializeSize(), b2i(merkleOk), b2i(dup), commit, cbH)
-	fmt.Fprintf(&sb, " %d,%d,%d", s.hOk, s.hFail, s.inOk)
+	fmt.Fprintf(&sb, " %d,%d,%d,%d,%d", s.hOk, s.hFail, s.inOk, s.skipPow, s.store)
 
 	// transactions, against the utxo set as it evolves inside the block
 	view := map[wire.OutPoint]coin{}
